@@ -24,8 +24,9 @@ type input struct {
 	SharedAddr bool          `json:"shared_address,omitempty"` // the handler reads from a listener-manager handle and another handle on the address stays open (a reload that keeps the address)
 	Timeout    time.Duration `json:"nat_timeout"`
 	Ops        []udpx.Op     `json:"ops"`
-	SlowRemove time.Duration `json:"slow_remove,omitempty"` // every removal report takes this long: the teardown window is open for that time
-	Listeners  int           `json:"listeners,omitempty"`   // UDP listeners of the service (one handler)
+	SlowRemove time.Duration `json:"slow_remove,omitempty"`     // every removal report takes this long: the teardown window is open for that time
+	Listeners  int           `json:"listeners,omitempty"`       // UDP listeners of the service (one handler)
+	Service    bool          `json:"default_service,omitempty"` // the handler inside a service built with NewShadowsocksService and no NAT timeout (default 5 minutes)
 }
 
 type assoc struct {
@@ -355,7 +356,7 @@ func scenario(in input) *engine.Scenario {
 	tr := &udpx.Trace{}
 	sc := &engine.Scenario{Name: "nat-life", Opt: vrt.Options{Horizon: udpx.Horizon}}
 	sc.Body = func() {
-		udpx.Run(udpx.Config{Keys: udpx.DefaultKeys(), NatTimeout: in.Timeout, SlowRemove: in.SlowRemove, ViaManager: in.SharedAddr, KeepOther: in.SharedAddr, Listeners: in.Listeners}, in.Ops, tr)
+		udpx.Run(udpx.Config{Keys: udpx.DefaultKeys(), NatTimeout: in.Timeout, SlowRemove: in.SlowRemove, ViaManager: in.SharedAddr, KeepOther: in.SharedAddr, Listeners: in.Listeners, ViaService: in.Service}, in.Ops, tr)
 	}
 	sc.Check = func(x *vrt.Exec) (string, bool, []*engine.Finding) {
 		fs := hk.Generic(x, hk.Opts{Leaks: true})
@@ -523,6 +524,13 @@ func init() {
 				sc := scenario(in)
 				sc.Name = "nat-life-deep"
 				ctx.RunCase("nat-life-deep", "Q", sc, in, nil)
+				if code%5 == 0 {
+					// the same history through a service built with its defaults (5 minutes)
+					in.Service = true
+					sc := scenario(in)
+					sc.Name = "nat-life-deep"
+					ctx.RunCase("nat-life-deep", "Q", sc, in, nil)
+				}
 			}
 		}
 		// three datagrams of one client with gaps g1, g2 < timeout, then a reply just before the
